@@ -118,7 +118,9 @@ def corpus_variants(prop: Optional[str]) -> list[dict]:
         with open(mp, encoding="utf-8") as fh:
             m = json.load(fh)
         if prop is None or m["written_for_property"] == prop:
-            out.append({"id": "refactor:" + m["id"], "prop": m["written_for_property"], "expect": "silent", "rule": None, "patch": os.path.join(d, "patch.diff")})
+            # a refactoring recorded as a known limit of the normal forms (DESIGN section 15.5) is run and reported, not judged
+            out.append({"id": "refactor:" + m["id"], "prop": m["written_for_property"], "expect": "known-limit" if m.get("known_limit") else "silent",
+                        "rule": None, "patch": os.path.join(d, "patch.diff")})
     return out
 
 
@@ -145,6 +147,8 @@ def run_variant(v: dict) -> dict:
     res = {"id": v["id"], "rc": rc, "rules": rules, "keys": keys, "error": out.get("error")}
     if v["expect"] == "fire":
         ok = rc == 1 and (v.get("rule") is None or v["rule"] in rules)
+    elif v["expect"] == "known-limit":
+        ok = rc in (0, 1)
     else:
         ok = rc == 0
     res["status"] = "ok" if ok else "FAILED"
